@@ -148,6 +148,9 @@ pub fn run_check(id: &str, tier: Tier) -> i32 {
         }
         "C09" => {
             parts.push(run_engine(&CatalogueServerEngine, &ctx, scale(tier, 12_000, 400_000)));
+            if parts.iter().all(|p| p.failure.is_none()) {
+                parts.push(run_engine(&crate::eng_raw::CatalogueClientEngine, &ctx, scale(tier, 8_000, 300_000)));
+            }
             assumptions.push("the catalogue rows (harness/src/eng_raw.rs) transcribe RFC 9113 correctly; only the class of reaction is demanded, never a specific code".into());
         }
         "C13" => {
@@ -429,6 +432,7 @@ pub fn replay(path: &str) -> i32 {
         "hpack-enc-big" => runner::replay_case(&EncEngine { big: true }, case),
         "codec-write" => runner::replay_case(&WriteEngine, case),
         "raw-catalogue-server" => runner::replay_case(&CatalogueServerEngine, case),
+        "raw-catalogue-client" => runner::replay_case(&crate::eng_raw::CatalogueClientEngine, case),
         "raw-acks-server" => runner::replay_case(&AcksEngine, case),
         "raw-flow-server" => runner::replay_case(&FlowEngine, case),
         "raw-capacity-server" => runner::replay_case(&CapEngine, case),
